@@ -65,11 +65,11 @@ def _delete(what, h0, s0, s1, s2, s3, d0, d1, d2, d3, dabs, do_repack, in_max=95
 def delete_chunks(s0: int, s2: int, d0: bool, d1: bool, d2: bool, d3: bool, in_max: int) -> bool:
     """
     delete_objects with the request (incl. an absent key) split into SQL IN-chunks of in_max keys; obj2 compressed, obj3
-    plain; then repack.
+    the EMPTY object stored plain (a pack may be left holding nothing but zero-length objects); then repack.
     pre: 1 <= s0 <= 70000 and 1 <= s2 <= 70000 and 1 <= in_max <= 3
     post: _
     """
-    return _delete('inv', 1, s0, 7, s2, 9, d0, d1, d2, d3, True, True, in_max, True, False, 5)
+    return _delete('inv', 1, s0, 7, s2, 0, d0, d1, d2, d3, True, True, in_max, True, False, 5)
 
 
 def delete_repack_pack(s0: int, s2: int, d0: bool, d1: bool, d2: bool, d3: bool, in_max: int) -> bool:
@@ -78,7 +78,7 @@ def delete_repack_pack(s0: int, s2: int, d0: bool, d1: bool, d2: bool, d3: bool,
     pre: 1 <= s0 <= 70000 and 1 <= s2 <= 70000 and 1 <= in_max <= 3
     post: _
     """
-    return _delete('inv', 1, s0, 7, s2, 9, d0, d1, d2, d3, True, True, in_max, True, False, 5, True)
+    return _delete('inv', 1, s0, 7, s2, 0, d0, d1, d2, d3, True, True, in_max, True, False, 5, True)
 
 
 def delete_repack(h0: int, s0: int, s1: int, s2: int, s3: int, d0: bool, d1: bool, d2: bool, d3: bool, dabs: bool) -> bool:
